@@ -63,6 +63,29 @@ def make_world(rng, nf=None, nd=None):
     return da, dict(wspd=auxarr(2, 20), wdir=auxarr(0, 360), dpt=auxarr(8, 300))
 
 
+def norm(op, can, da):
+    """Canonical result with the comparisons the property leaves open removed: order of equal-Hs partitions, angles of
+    (near-)zero moment vectors, tied peak directions; tiny Stokes-drift components are compared against the drift speed."""
+    out = []
+    lead = [d for d in da.dims if d not in ("freq", "dir")]
+    for c in can:
+        if op in opcat.PART_HEADS:
+            c = opcat.sort_parts(c, opcat.PART_HEADS[op])
+        nm = c["name"].split(":")[-1]
+        if nm in ("dm", "dp", "dpm") and "freq" not in c["dims"]:
+            c = opcat.mask_positions(c, lead, opcat.weak_angle_positions(nm, da))
+        out.append(c)
+    return out
+
+
+def abs_tol(op, da):
+    if op in ("uss_x", "uss_y"):
+        return 1e-9 * float(da.spec.uss().max())
+    if op == "momd1":
+        return 1e-9 * float(da.spec.oned().max())
+    return 0.0
+
+
 def make_case(args):
     seed, icase = args
     rng = case_rng("C07", seed, icase)
@@ -86,14 +109,14 @@ def make_case(args):
                    workers=nw, dims=list(da.dims), shape=[int(da.sizes[d]) for d in da.dims],
                    spectral_split=bool(ch.get("freq", -1) != -1 or ch.get("dir", -1) != -1))
         try:
-            ref = opcat.canon(compute(C[op](da, aux)))
+            ref = norm(op, opcat.canon(compute(C[op](da, aux))), da)
         except Exception as e:
             rec["skip"] = f"in-memory call raised {type(e).__name__}: {str(e)[:120]}"
             out.append(rec)
             continue
         try:
-            got = opcat.canon(compute(C[op](dch, auxch), **kw))
-            rec["diff"] = opcat.compare(got, ref, rel=3e-6 if op in opcat.FLOAT32_OUT else 1e-9)
+            got = norm(op, opcat.canon(compute(C[op](dch, auxch), **kw)), da)
+            rec["diff"] = opcat.compare(got, ref, rel=3e-6 if op in opcat.FLOAT32_OUT else 1e-9, abs_=abs_tol(op, da))
         except Exception as e:
             rec["crash"] = f"{type(e).__name__}: {str(e)[:240]}"
         out.append(rec)
@@ -104,14 +127,14 @@ def make_case(args):
         rec = dict(op=f"concurrent:{op}", icase=icase, scheduler="threads", workers=16, shapes=[list(da.shape), list(da2.shape)],
                    chunks="one spectrum per chunk", dims=list(da.dims), shape=[int(x) for x in da.shape], spectral_split=False)
         try:
-            ref1 = opcat.canon(compute(C[op](da, aux)))
-            ref2 = opcat.canon(compute(C[op](da2, aux2)))
+            ref1 = norm(op, opcat.canon(compute(C[op](da, aux))), da)
+            ref2 = norm(op, opcat.canon(compute(C[op](da2, aux2))), da2)
             c1 = {d: 1 for d in da.dims if d not in ("freq", "dir")}
             c2 = {d: 1 for d in da2.dims if d not in ("freq", "dir")}
             r1 = C[op](da.chunk(c1), aux)
             r2 = C[op](da2.chunk(c2), aux2)
             g1, g2 = dask.compute(r1, r2, scheduler="threads", num_workers=16)
-            rec["diff"] = opcat.compare(opcat.canon(g1), ref1, rel=1e-9) or opcat.compare(opcat.canon(g2), ref2, rel=1e-9)
+            rec["diff"] = opcat.compare(norm(op, opcat.canon(g1), da), ref1, rel=1e-9) or opcat.compare(norm(op, opcat.canon(g2), da2), ref2, rel=1e-9)
         except Exception as e:
             rec["crash"] = f"{type(e).__name__}: {str(e)[:240]}"
         out.append(rec)
